@@ -124,6 +124,7 @@ func zzE2EKeyed(gk, gv, keys, vals []int64, what string) {
 // and a reducing merge on the consumer side.
 func zzH_C01_e2e_reduce()       { zzE2EReduceHarness(2, false) }
 func zzH_C01_e2e_reduce_quick() { zzE2EReduceHarness(2, true) }
+func zzH_C01_e2e_reduce_deep()  { zzE2EReduceHarness(3, true) }
 
 func zzE2EReduceHarness(maxRows int, fixed bool) {
 	old := *defaultChunksize
